@@ -62,9 +62,11 @@ MOS_G1 = [0x11, 0x19]
 ATMEL_G2 = [0x3b]
 ATMEL_G1 = [0x3d]
 # "Intel Hex for the rest"; the number is only a hint for the generator (where to aim addresses)
-REST = {1: {8: [0x51, 0x31, 0x41, 0x21, 0x79, 0x3f, 0x3e, 0x4a, 0x53, 0x73, 0x33, 0x39, 0x48],
+REST = {1: {8: [0x51, 0x31, 0x41, 0x21, 0x79, 0x3f, 0x3e, 0x4a, 0x53, 0x73, 0x33, 0x39, 0x48, 0x02, 0x07, 0x08, 0x0a, 0x14,
+                0x15, 0x16, 0x25, 0x27, 0x32, 0x38, 0x3a, 0x43, 0x44, 0x49, 0x4d, 0x4e, 0x4f, 0x54, 0x55, 0x57, 0x58, 0x59,
+                0x5a, 0x5b, 0x5c, 0x5d, 0x5f, 0x67, 0x6a, 0x6b, 0x6e, 0x6f, 0x78, 0x7a, 0x7b, 0x7c, 0x7e, 0x7f],
             16: [0x42, 0x3c, 0x4c, 0x60, 0x46], 32: [0x13, 0x2a, 0x29, 0x47]},
-        2: {8: [0x70, 0x71, 0x72, 0x36, 0x6d]},
+        2: {8: [0x70, 0x71, 0x72, 0x36, 0x6d, 0x1a, 0x1b, 0x1c, 0x1d]},
         4: {8: [0x7d], 32: [0x76]}}
 ANY_G = {1: MOTO_G1 + MOS_G1 + ATMEL_G1 + REST[1][8] + REST[1][16] + REST[1][32], 2: REST[2][8] + [0x3b],
          4: REST[4][8] + REST[4][32] + MOTO_G4}
@@ -85,7 +87,7 @@ def family_of(cpu):
 
 
 def budget(tier):
-    return dict(examples=14000 if tier == "quick" else 260000, shards=16)
+    return dict(examples=14000 if tier == "quick" else 200000, shards=16)
 
 
 # ---------------------------------------------------------------- generator
@@ -109,18 +111,27 @@ LINE_CHOICES = [(6, None), (3, 2), (1, 3), (2, 4), (1, 5), (1, 8), (1, 15), (2, 
                 (1, 128), (1, 252), (1, 253), (2, 254)]
 
 
+def opt(d, p):
+    """True with probability p; shrinks towards False (an option that is not given)"""
+    return d.int(0, 999) >= 1000 - int(p * 1000)
+
+
 @composite
 def strategy_(d, tier):
     thorough = tier == "thorough"
     fsel = d.weighted([(5, "default"), (4, "Moto"), (4, "Intel"), (3, "Intel16"), (4, "Intel32"), (3, "MOS"), (3, "Tek"),
                        (2, "Atmel"), (3, "C")])
     gran = d.weighted([(7, 1), (3, 2), (1, 4)])
+    pic = opt(d, 0.12)          # the documented PIC case: word-granular file, Intel format, -m
+    if pic:
+        gran = 2
+        fsel = d.choice(["default", "Intel"])
     if fsel == "Atmel" and gran == 4:
         gran = 2
     o = {}
     hint = 8
     if fsel == "default":
-        fam = d.weighted([(3, "Moto"), (2, "MOS"), (2, "Atmel"), (4, "rest")])
+        fam = "rest" if pic else d.weighted([(3, "Moto"), (2, "MOS"), (2, "Atmel"), (4, "rest")])
         if fam == "Moto":
             gran = 4 if gran == 4 else 1
             cpus, eff = (MOTO_G4 if gran == 4 else MOTO_G1), "Moto"
@@ -130,7 +141,7 @@ def strategy_(d, tier):
             gran = 2 if gran != 1 else 1
             cpus, eff = (ATMEL_G2 if gran == 2 else ATMEL_G1), "Atmel"
         else:
-            hint = d.choice(sorted(REST[gran]))
+            hint = 8 if pic else d.choice(sorted(REST[gran]))
             cpus, eff = REST[gran][hint], {8: "Intel", 16: "Intel16", 32: "Intel32"}[hint]
     else:
         o["F"] = fsel
@@ -138,11 +149,11 @@ def strategy_(d, tier):
         cpus = ANY_G[gran]
     cpus = d.shuffle(cpus)[:d.int(1, 3)]
     m = 0
-    if gran == 2 and eff == "Intel" and d.bool(0.6):
+    if gran == 2 and eff == "Intel" and (pic or opt(d, 0.6)):
         m = d.int(0, 3)
         o["m"] = m
     avrlen = 3
-    if eff == "Atmel" and d.bool(0.5):
+    if eff == "Atmel" and opt(d, 0.5):
         avrlen = d.int(2, 3)
         o["avrlen"] = avrlen
     lopt = d.weighted(LINE_CHOICES)
@@ -154,9 +165,9 @@ def strategy_(d, tier):
     lim = field_limit(eff, gran, m, avrlen)
 
     # transformation: final = in + fileoffset - (S if -a) + R
-    rel = d.bool(0.25)
+    rel = opt(d, 0.25)
     R = 0
-    if d.bool(0.3):
+    if opt(d, 0.3):
         R = d.weighted([(3, d.int(1, 0x200)), (2, 0x1000), (2, 0x10000 // gran), (1, 0x100000 // gran), (1, 0xff0000),
                         (1, 0x7fff0000)])
         R = min(R, lim)
@@ -173,7 +184,7 @@ def strategy_(d, tier):
     for w, b in ((6, 0x10000), (4, 0x100000), (4, 0x1000000), (1, 0x80000000), (2, 0x20000), (1, 0x10ff00)):
         cands.append((w, (b // scale, "cross")))
     cands.append((2, (lim + 1, "cross")))
-    overflow_ok = d.bool(0.12)
+    overflow_ok = opt(d, 0.12)
     fin = []
     for _ in range(d.int(1, 3)):
         a, k = d.weighted(cands)
@@ -195,9 +206,9 @@ def strategy_(d, tier):
 
     segs = d.weighted([(5, (1,)), (2, (1, 2)), (1, (1, 2, 4))])
     sel_seg = 1
-    if len(segs) > 1 and d.bool(0.5):
+    if len(segs) > 1 and opt(d, 0.5):
         sel_seg = d.choice(segs)
-        if sel_seg != 1 or d.bool(0.3):
+        if sel_seg != 1 or opt(d, 0.3):
             o["segment"] = SEGN[sel_seg]
     nfiles = d.weighted([(6, 1), (3, 2), (1, 3)])
     counter = [d.int(0, 300)]
@@ -205,7 +216,7 @@ def strategy_(d, tier):
     emax = d.weighted([(6, 0xffff), (1, 0xfffff), (1, 0xffffff), (1, 0xffffffff)])
     for i in range(nfiles):
         off = None
-        if d.bool(0.15):
+        if opt(d, 0.15):
             off = d.weighted([(3, d.int(1, 0x200)), (1, 0x10000), (1, 0x8000)])
         sub = off or 0
         anc = []
@@ -215,49 +226,49 @@ def strategy_(d, tier):
             else:
                 anc.append((max(0, a - sub), k))
         f = hexgen.gen_file(d, "f%d" % i, gran=gran, cpus=cpus, segs=segs, anchors=anc, line=line_units,
-                            counter=counter, entry_max=emax, offset=off, big_ok=thorough and d.bool(0.2),
-                            first_at=(max(0, S0 - sub) if (rel and i == 0 and d.bool(0.7)) else None),
+                            counter=counter, entry_max=emax, offset=off, big_ok=thorough and opt(d, 0.2),
+                            first_at=(max(0, S0 - sub) if (rel and i == 0 and opt(d, 0.7)) else None),
                             limit=max(0, in_limit - sub))
         files.append(f)
 
     # window
-    if d.bool(0.4):
+    if opt(d, 0.4):
         addrs = [(r["addr"] + (f["offset"] or 0), r["n"]) for f in files for r in f["recs"]
                  if r["kind"] == "data" and r["seg"] == sel_seg and r["n"] > 0]
         if addrs:
             a0, n0 = d.choice(addrs)
             a1, n1 = d.choice(addrs)
-            lo = a0 + d.int(-4, n0 - 1 if d.bool(0.6) else 4)
+            lo = a0 + d.int(-4, n0 - 1 if opt(d, 0.6) else 4)
             hi = a1 + d.int(0, n1 + 4)
-            if rel and d.bool(0.5):
+            if rel and opt(d, 0.5):
                 lo = S0
-            lo = max(0, lo)
+            lo = max(0, min(lo, 0xffffffff))
             hi = max(lo, min(hi, 0xffffffff))
             mode = d.weighted([(3, "ee"), (2, "ae"), (2, "ea"), (1, "aa")])
             o["r"] = [lo if mode[0] == "e" else None, hi if mode[1] == "e" else None]
-    if d.bool(0.25):
+    if opt(d, 0.25):
         o["M"] = d.int(1, 3)
-    if d.bool(0.25):
+    if opt(d, 0.25):
         o["no5"] = True
-    if d.bool(0.3):
+    if opt(d, 0.3):
         o["i"] = d.int(0, 2)
-    if d.bool(0.3):
+    if opt(d, 0.3):
         o["e"] = d.weighted([(8, d.int(0, 0xffff)), (1, d.int(0x10000, 0xfffff)), (1, d.int(0x100000, 0xffffffff))])
-    if "avrlen" not in o and d.bool(0.05):
+    if "avrlen" not in o and opt(d, 0.05):
         o["avrlen"] = d.int(2, 3)
-    if d.bool(0.25):
+    if opt(d, 0.25):
         allc = sorted({r["cpu"] for f in files for r in f["recs"] if r["kind"] == "data"})
         pick = d.subset(allc, 0.6) or [allc[0]]
-        if d.bool(0.2):
+        if opt(d, 0.2):
             pick.append(0x7f)
         o["f"] = pick
-    if eff == "C" and d.bool(0.4):
-        letters = [d.choice("dD")] + [d.choice(p) for p in ("sS", "lL", "eE") if d.bool(0.75)]
+    if eff == "C" and opt(d, 0.4):
+        letters = [d.choice("dD")] + [d.choice(p) for p in ("sS", "lL", "eE") if opt(d, 0.75)]
         o["cformat"] = "".join(d.shuffle(letters))
     o["sty"] = [d.choice(["dec", "dollar", "0x", "h"]) for _ in range(6)]
     o["order"] = d.bool()
-    o["single"] = d.bool(0.3)
-    o["lc"] = d.bool(0.3)
+    o["single"] = opt(d, 0.3)
+    o["lc"] = opt(d, 0.3)
     return dict(files=files, opts=o)
 
 
@@ -566,7 +577,8 @@ def judge_intel(text, mdl, o, info, variant):
         info["cls"].append("overflow")
         if variant == 16 and top <= 0x10ffef:
             info["cls"].append("overflow-unsettled")
-            compare_pairs(dec, exp)
+            if not warned:              # silent: then the file must be right
+                compare_pairs(dec, exp)
         else:
             if not warned:
                 raise Violation("highest written address %X does not fit the %d-bit Intel format but no warning is given"
@@ -674,7 +686,7 @@ def judge_c(text, mdl, o, info, name):
     groups = mdl["groups"]
     want_fields = {"d": "const char *data", "D": "const char *data", "s": "unsigned start", "S": "unsigned long start",
                    "l": "unsigned len", "L": "unsigned long len", "e": "unsigned end", "E": "unsigned long end"}
-    if p["fields"] != [want_fields[c] for c in cf]:
+    if [f.replace("unsigned char", "char") for f in p["fields"]] != [want_fields[c] for c in cf]:
         raise Violation("descriptor members %r do not follow -cformat %s" % (p["fields"], cf))
     rows = p["rows"]
     if not rows or rows[-1] != ["0"] * len(cf):
@@ -733,6 +745,56 @@ def judge_c(text, mdl, o, info, name):
             raise Violation("len macro %X of a block of %d bytes" % (l, nb))
     if "overflow" in info["stderr"].lower():
         raise Violation("address overflow warning for the C format")
+    compile_c(text, name, cf, blocks, mdl, info)
+
+
+def compile_c(text, name, cf, blocks, mdl, info):
+    """second, independent witness: the file must compile as ISO C and as C++ ('C(++) source files', manual) and the
+    compiled descriptor table must hold the same blocks"""
+    low = cf.lower()
+    body = ['#include <stdio.h>', '#include "%s.hex"' % name, 'int main(void) {', '  const %s_blk *b; unsigned long i;' % name,
+            '  for (b = %s_blks; b->data; b++) {' % name, '    printf("B");']
+    for c, fld in (("s", "start"), ("l", "len"), ("e", "end")):
+        if c in low:
+            body.append('    printf(" %s=%%lx", (unsigned long)b->%s);' % (c, fld))
+    if "l" in low:
+        body.append('    printf(" d="); for (i = 0; i < b->len; i++) printf("%02x", (unsigned)(unsigned char)b->data[i]);')
+    body += ['    printf("\\n");', '  }', '#ifdef %s_entry' % name, '  printf("E %%lx\\n", (unsigned long)%s_entry);' % name,
+             '#endif', '  (void)i; return 0;', '}', '']
+    cxx = (len(mdl["groups"]) + len(text)) % 2 == 1
+    with run.Work("c06c") as d:
+        run.write_files(d, {name + ".hex": text, "drv.c": "\n".join(body)})
+        if cxx:
+            cmd = ["/usr/bin/g++", "-x", "c++", "-std=c++11", "-pedantic-errors", "-Wno-unused", "-o", "drv", "drv.c"]
+        else:
+            cmd = ["/usr/bin/gcc", "-std=c99", "-pedantic-errors", "-o", "drv", "drv.c"]
+        r = run.run(cmd, d, timeout=60, cpu=30)
+        if r.timed_out:
+            return
+        info["cls"].append("compiled-c++" if cxx else "compiled-c")
+        if r.status != 0:
+            raise Violation("the C output is rejected by %s: %s" % ("g++ -std=c++11 -pedantic-errors" if cxx else
+                                                                    "gcc -std=c99 -pedantic-errors", r.err[:400]))
+        r2 = run.run([d + "/drv"], d, timeout=30)
+        if r2.timed_out:
+            return
+        if r2.status != 0 or r2.signal:
+            raise Violation("program using the C output fails: status %s signal %s" % (r2.status, r2.signal))
+    got = [l for l in r2.out.split("\n") if l.startswith("B")]
+    want = []
+    for b in blocks:
+        l = "B"
+        for c in ("s", "l", "e"):
+            if c in low:
+                l += " %s=%x" % (c, b[c] & 0xffffffff)
+        if "l" in low:
+            l += " d=" + b["data"][:b["l"]].hex() + "00" * max(0, b["l"] - len(b["data"]))
+        want.append(l)
+    if got != want:
+        raise Violation("compiled descriptor table differs from the parsed text: %r vs %r" % (got[:2], want[:2]))
+    ent = [l for l in r2.out.split("\n") if l.startswith("E")]
+    if mdl["entry"] is not None and ent != ["E %x" % mdl["entry"]]:
+        raise Violation("entry macro %r, entry address %X" % (ent, mdl["entry"]))
 
 
 # ---------------------------------------------------------------- command line
@@ -962,6 +1024,22 @@ def fixed_cases(tier):
     for l in lens:
         for f in ("Intel", "Moto", "MOS"):
             out.append(_case([_rec(0x51, 0x100, 600)], F=f, l=l))
+    # every format x granularity x a few line lengths, crossing the 64 KiB boundary of the address field
+    for f in FORMATS:
+        for g, cpu in ((1, 0x51), (2, 0x70), (4, 0x76)):
+            if f == "Atmel" and g == 4:
+                continue
+            for l in ((None, 2, 4, 6, 10, 254) if tier == "quick" else [None] + list(range(2, 255))):
+                if l is not None and l < g:
+                    continue
+                scale = g if f.startswith("Intel") else 1
+                lim = field_limit(f, g, 0, 3)
+                base = min(0x10000 // scale, lim + 1) - 0x11
+                n = 0x30 if base + 0x30 <= lim + 1 else 0x11
+                o = dict(F=f)
+                if l:
+                    o["l"] = l
+                out.append(_case([_rec(cpu, base, n, gran=g), _rec(cpu, 0x100, 70, gran=g, c=77)], **o))
     # PIC lanes
     for m in range(4):
         out.append(_case([_rec(0x70, 0x10, 21, gran=2)], m=m))
